@@ -23,6 +23,12 @@ class Unknown(Exception):
     pass
 
 
+class Return(Exception):
+    """`return x` met while evaluating a body (caught by call_fn)"""
+    def __init__(self, value):
+        self.value = value
+
+
 ANY = ("any",)
 
 
@@ -203,7 +209,26 @@ class AEval:
         for p, a in zip(f["params"], args):
             if not self.pmatch(p, a, env):
                 raise Unknown("parameter pattern")
-        return self.ev(f["hir"], env, depth)
+        try:
+            return self.ev(f["hir"], env, depth)
+        except Return as r:
+            return r.value
+
+    def cond(self, c, env, depth):
+        """evaluate an `if` condition; `if let PAT = E` binds into env. -> bool"""
+        c = strip(c)
+        if c["k"] == "letexpr":
+            v = self.ev(c["init"], env, depth)
+            return self.pmatch(c["pat"], v, env)
+        if c["k"] == "bin" and c["op"] == "&&" and not c.get("overload"):
+            # let chains / short-circuit: the right side may use bindings of the left
+            if not self.cond(c["a"], env, depth):
+                return False
+            return self.cond(c["b"], env, depth)
+        v = self.ev(c, env, depth)
+        if v[0] != "bool":
+            raise Unknown("if condition undetermined")
+        return v[1]
 
     def ev(self, e, env, depth=0):
         e = strip(e)
@@ -255,6 +280,10 @@ class AEval:
                     if "Struct" in dk:
                         return ("newtype", f["path"], args[0] if len(args) == 1 else ("tuple", args))
                     return ("enum", f["path"], args)
+                if f["path"] == "core::ops::range::RangeInclusive::<Idx>::new" and len(e["args"]) == 2:
+                    a, b = [self.ev(x, env, depth) for x in e["args"]]
+                    a, b = [(v[2] if v[0] == "newtype" else v) for v in (a, b)]
+                    return ("range", a, b, True)
                 if f.get("local") and dk in ("Fn", "AssocFn"):
                     args = [self.ev(a, env, depth) for a in e["args"]]
                     return self.call_fn(f.get("resolved") or f["path"], args, depth + 1)
@@ -265,6 +294,18 @@ class AEval:
                 some = v[1].endswith("Some")
                 return ("bool", some if e["path"].endswith("is_some") else not some)
             raise Unknown("is_some/is_none on arbitrary value")
+        if k == "mcall" and (e.get("path") or "") in ("core::ops::range::Range::<Idx>::contains", "core::ops::range::RangeInclusive::<Idx>::contains",
+                                                      "core::ops::range::RangeFrom::<Idx>::contains", "core::ops::range::RangeTo::<Idx>::contains",
+                                                      "core::ops::range::RangeToInclusive::<Idx>::contains"):
+            r = self.ev(e["recv"], env, depth)
+            x = self.ev(e["args"][0], env, depth)
+            if x[0] == "newtype":
+                x = x[2]
+            if r[0] != "range" or x[0] != "int" or any(b is not None and b[0] != "int" for b in (r[1], r[2])):
+                raise Unknown("range test on partially known values")
+            lo, hi, incl = r[1], r[2], r[3]
+            ok = (lo is None or lo[1] <= x[1]) and (hi is None or (x[1] <= hi[1] if incl else x[1] < hi[1]))
+            return ("bool", ok)
         if k == "mcall":
             target = e.get("resolved") or e.get("path")
             is_local = e.get("resolved_local") if e.get("resolved") else e.get("local")
@@ -289,11 +330,9 @@ class AEval:
                     return self.ev(arm["body"], env2, depth)
             raise Unknown("no arm matched")
         if k == "if":
-            c = self.ev(e["c"], env, depth)
-            if c[0] != "bool":
-                raise Unknown("if condition undetermined")
-            if c[1]:
-                return self.ev(e["t"], env, depth)
+            env2 = dict(env)
+            if self.cond(e["c"], env2, depth):
+                return self.ev(e["t"], env2, depth)
             if e.get("f") is None:
                 return ("tuple", [])
             return self.ev(e["f"], env, depth)
@@ -358,50 +397,29 @@ class AEval:
                         raise Unknown("let pattern")
                 elif s["k"] in ("semi", "sexpr"):
                     se = strip(s["e"])
-                    if se["k"] == "ret":
-                        return self.ev(se["x"], env2, depth)
-                    if se["k"] == "if":
-                        # statement-level `if c { return X }`
-                        c = self.ev(se["c"], env2, depth)
-                        if c[0] != "bool":
-                            raise Unknown("if condition undetermined")
-                        br = se["t"] if c[1] else se.get("f")
-                        if br is not None:
-                            r = self.ev_stmt_branch(br, env2, depth)
-                            if r is not None:
-                                return r
+                    if se["k"] in ("ret", "if", "match", "block"):
+                        # evaluated for its control flow only (`return` inside raises Return); the language has no
+                        # side effects that the abstract values could observe (assignments are not modelled: Unknown)
+                        self.ev(se, env2, depth)
                         continue
                     raise Unknown("statement " + se["k"])
+                elif s["k"] == "item":
+                    continue
                 else:
                     raise Unknown("statement kind " + s["k"])
             if e["expr"] is None:
                 return ("tuple", [])
             return self.ev(e["expr"], env2, depth)
         if k == "ret":
-            return self.ev(e["x"], env, depth)
+            raise Return(self.ev(e["x"], env, depth) if e.get("x") is not None else ("tuple", []))
         if k == "struct":
             res = e["res"]
             if e.get("base") is not None:
                 raise Unknown("struct update syntax")
+            rp = (res or {}).get("path", "") if isinstance(res, dict) else ""
+            if rp.startswith("core::ops::range::Range"):
+                fs = {f["name"]: self.ev(f["e"], env, depth) for f in e["fields"]}
+                fs = {n: (v[2] if v[0] == "newtype" else v) for n, v in fs.items()}
+                return ("range", fs.get("start"), fs.get("end"), "Inclusive" in rp)
             return ("rec", {f["name"]: self.ev(f["e"], env, depth) for f in e["fields"]})
         raise Unknown("expression kind " + k)
-
-    def ev_stmt_branch(self, br, env, depth):
-        """a branch of a statement-level if: returns a value if it `return`s, else None."""
-        br = strip(br)
-        if br["k"] == "ret":
-            return self.ev(br["x"], env, depth)
-        if br["k"] == "block":
-            for s in br["stmts"]:
-                if s["k"] in ("semi", "sexpr"):
-                    se = strip(s["e"])
-                    if se["k"] == "ret":
-                        return self.ev(se["x"], env, depth)
-                raise Unknown("statement in if-branch")
-            if br["expr"] is not None:
-                x = strip(br["expr"])
-                if x["k"] == "ret":
-                    return self.ev(x["x"], env, depth)
-                raise Unknown("non-return tail in statement-if")
-            return None
-        raise Unknown("if-branch kind " + br["k"])
